@@ -21,18 +21,21 @@ func ClassifyRace(rep string) (class, detail string) {
 		if strings.Contains(b, "created at") {
 			continue
 		}
-		fr := raceFrame.FindAllStringSubmatch(b, 8)
+		fr := raceFrame.FindAllStringSubmatch(b, 12)
 		top := ""
-		for i, f := range fr {
+		// the access belongs to whoever owns the first frame that is neither standard library nor runtime:
+		// the library, or the harness (a harness access reached through a library hook is a harness access)
+		for _, f := range fr {
+			if strings.Contains(f[1], "restsim/") {
+				break
+			}
 			if strings.Contains(f[1], "go-restful/v3.") {
 				lib = true
-				if top == "" {
-					fn := f[1][strings.LastIndex(f[1], "/")+1:]
-					file := f[2][strings.LastIndex(f[2], "/")+1:]
-					top = fn + "@" + file + ":" + f[3]
-				}
+				fn := f[1][strings.LastIndex(f[1], "/")+1:]
+				file := f[2][strings.LastIndex(f[2], "/")+1:]
+				top = fn + "@" + file + ":" + f[3]
+				break
 			}
-			_ = i
 		}
 		if top == "" && len(fr) > 0 {
 			top = fr[0][1]
